@@ -164,3 +164,47 @@ def static_vs_runtime(model, payload):
     if r.get("reproduced"):
         return r
     return _literal_expression_sweep() or r
+
+
+def _ctx_key_sweep():
+    """FunctionArgContext.as_hashable: equal contexts give equal keys, different contexts different keys (the key of the
+    per-evaluation analysis cache); relevant_keys: all entries when every hash is known, else the context alone"""
+    import itertools
+    from dds.structures import FunctionArgContext
+
+    hashes = [None, "h1", "h2"]
+    ctxs = []
+    for names in (("a",), ("a", "b"), ("b", "a")):
+        for hs in itertools.product(hashes, repeat=len(names)):
+            for ick in (None, "c1", "c2"):
+                ctxs.append(FunctionArgContext(OrderedDict(zip(names, hs)), ick))
+    keys = []
+    for c in ctxs:
+        k1, k2 = FunctionArgContext.as_hashable(c), FunctionArgContext.as_hashable(FunctionArgContext(OrderedDict(c.named_args), c.inner_call_key))
+        try:
+            hash(k1)
+        except TypeError:
+            return {"reproduced": True, "detail": "as_hashable(%r) is not hashable" % (c,), "inputs": {"context": repr(c)}}
+        if k1 != k2:
+            return {"reproduced": True, "detail": "as_hashable gives two keys for equal contexts %r" % (c,), "inputs": {"context": repr(c)}}
+        keys.append(k1)
+        rk = FunctionArgContext.relevant_keys(c)
+        items = list(c.named_args.items())
+        want = items if all(h is not None for _, h in items) else ([] if c.inner_call_key is None else [("__context__", c.inner_call_key)])
+        if list(rk) != want:
+            return {"reproduced": True, "detail": "relevant_keys(%r) -> %r, expected %r" % (c, rk, want), "inputs": {"context": repr(c)}}
+    for (i, a), (j, b) in itertools.combinations(enumerate(ctxs), 2):
+        same = list(a.named_args.items()) == list(b.named_args.items()) and a.inner_call_key == b.inner_call_key
+        if (keys[i] == keys[j]) != same:
+            return {"reproduced": True, "detail": "as_hashable: contexts %r and %r %s" % (a, b, "share one key" if not same else "get different keys"), "inputs": {"a": repr(a), "b": repr(b)}}
+    return None
+
+
+_static_vs_runtime2 = static_vs_runtime
+
+
+def static_vs_runtime(model, payload):
+    r = _static_vs_runtime2(model, payload)
+    if r.get("reproduced"):
+        return r
+    return _ctx_key_sweep() or r
